@@ -28,6 +28,15 @@ def models(tier):
         hold["node"]["retransmit_queue_size"] = W
         out.append(monitors.ScenarioModel(f"held-answers-window-{W}", hold,
                                           [("m", 0, n) for n in reqs[:6]] + [("ans", 0), ("ans", 1), ("ans", 2), ("tick", 45)], MONS, max_socks=1, prelude=PRE))
+    # the peer loses its connection and comes back: what it was answered before is still answered (failover is when T-flagged repeats happen)
+    rc_cfg = copy.deepcopy(BASE)
+    rc_cfg["node"]["retransmit_queue_size"] = 3
+    rc_cfg["apps"][0]["behaviour"] = "answer"
+    alpha = []
+    for c in (0, 1):
+        alpha += [("m", c, n) for n in ("rt:p:0:1", "rt:p:1:1", "rt:a:0:2", "rt:a:1:2")] + [("eof", c)]
+    alpha += [("accept",), ("m", 1, "cer_p0"), ("tick", 1)]
+    out.append(monitors.ScenarioModel("peer-reconnects", rc_cfg, alpha, MONS, max_socks=2, prelude=PRE))
     # a second deterministic scheduling policy (the I/O thread runs only when nothing else can)
     if True:
         out = monitors.with_io_last(out)
